@@ -624,7 +624,10 @@ pub fn gen(args: &[String]) {
                     s
                 };
                 id += 1;
-                out.line(&json!({"id": id, "entry": "Document", "text": text, "tok": -1, "rec": -1, "trace": trace}));
+                // no token limit; sometimes a small recursion limit (nesting beyond it, then whatever follows)
+                let rec: i64 = *rng.pick(&[-1i64, -1, -1, 0, 1, 2, 4]);
+                let text = if rec >= 0 && rng.chance(1, 2) { format!("{{ a {{ b {{ c {{ d {{ e {{ f }} }} }} }} }} }} {text}") } else { text };
+                out.line(&json!({"id": id, "entry": "Document", "text": text, "tok": -1, "rec": rec, "trace": trace}));
             }
             "standalone" => {
                 let ty = rng.chance(1, 2);
